@@ -191,7 +191,7 @@ func vkECSRequest(cs vkECSCase, name string, id uint16) *dns.Msg {
 			opt.Option = append(opt.Option, &dns.EDNS0_LOCAL{Code: 65001, Data: []byte("secret-client-token")})
 		}
 	}
-	if cs.Extra == "all" || cs.Extra == "twoopt" || cs.Extra == "twoopt-rev" {
+	if cs.Extra == "all" || cs.Extra == "twoopt" || cs.Extra == "twoopt-rev" || cs.Extra == "strayopt-ns" || cs.Extra == "strayopt-an" {
 		for _, k := range []string{"cookie", "nsid", "padding", "keepalive", "unknown"} {
 			add(k)
 		}
@@ -208,6 +208,11 @@ func vkECSRequest(cs vkECSCase, name string, id uint16) *dns.Msg {
 		m.Extra = []dns.RR{opt, empty}
 	case "twoopt-rev":
 		m.Extra = []dns.RR{empty, opt}
+	case "strayopt-ns":
+		// the option-laden OPT sits in the AUTHORITY section of the query, a plain one in the additional section
+		m.Ns, m.Extra = []dns.RR{opt}, []dns.RR{empty}
+	case "strayopt-an":
+		m.Answer, m.Extra = []dns.RR{opt}, []dns.RR{empty}
 	}
 	return m
 }
@@ -256,7 +261,9 @@ func vkCheckUpstream(cs vkECSCase, up *dns.Msg) string {
 	allowed := cs.Policy.allows(clientAddr)
 	var ecsSeen []*dns.EDNS0_SUBNET
 	// EVERY OPT record of the upstream query counts (what goes on the wire is the whole additional section)
-	for _, rr := range up.Extra {
+	var upRRs []dns.RR // an OPT is an OPT wherever it sits in the upstream query
+	upRRs = append(append(append(upRRs, up.Answer...), up.Ns...), up.Extra...)
+	for _, rr := range upRRs {
 		opt, isOpt := rr.(*dns.OPT)
 		if !isOpt {
 			continue
@@ -405,9 +412,9 @@ func TestVerifC19Forward(t *testing.T) {
 		return
 	}
 	clients := []string{"10.1.2.3:4000", "192.0.2.9:4000", "[2001:db8::9]:4000", "[::ffff:10.1.2.3]:4000"}
-	extras := []string{"", "cookie", "all", "twoopt", "twoopt-rev"}
+	extras := []string{"", "cookie", "all", "twoopt", "twoopt-rev", "strayopt-ns", "strayopt-an"}
 	if c.Thorough() {
-		extras = []string{"", "cookie", "nsid", "padding", "keepalive", "unknown", "all", "twoopt", "twoopt-rev"}
+		extras = []string{"", "cookie", "nsid", "padding", "keepalive", "unknown", "all", "twoopt", "twoopt-rev", "strayopt-ns", "strayopt-an"}
 	}
 	i := 0
 	for pi, p := range vkECSPolicies(c.Thorough()) {
